@@ -5,7 +5,8 @@
    tokens by one injective function per case (same digest <-> same token).
    code 1: model answer (count / elements / digest-token relation / RemoveId result) differs from the observed;
    code 2: the incremental index's observed answers differ from the fresh index's (spec_C08). *)
-From Coq Require Import List NArith Bool Arith.
+From Coq Require Import List NArith ZArith Bool Arith.
+From Coq Require Export Uint63.
 Import ListNotations.
 From AnySync Require Export Model.Ldiff.
 Open Scope N_scope.
@@ -17,7 +18,7 @@ Record obs := mkObs { o_tok : N; o_elems : list (N * N); o_count : N }.
    and of the fresh index (position by position) *)
 Record stepobs := mkStep { s_op : op; s_ok : bool; s_q : list query; s_inc : list obs; s_fresh : list obs }.
 
-Inductive case := CHist (df th : N) (steps : list stepobs).
+Inductive ncase := CHist (df th : N) (steps : list stepobs).
 
 Fixpoint pairs_eqb (x y : list (N * N)) : bool :=
   match x, y with
@@ -38,7 +39,7 @@ Fixpoint obs_list_eqb (x y : list obs) : bool :=
   end.
 
 (* spec_C08 over observed answers: incrementally maintained == freshly filled, at every step *)
-Definition spec_ok (c : case) : bool :=
+Definition spec_ok (c : ncase) : bool :=
   match c with CHist _ _ steps => forallb (fun s => obs_list_eqb (s_inc s) (s_fresh s)) steps end.
 
 (* model: run the history, answer the same queries; collect (digest, token) pairs *)
@@ -73,17 +74,41 @@ Fixpoint bijective (l : list (digest * N)) : bool :=
   | (d, t) :: r => consistent_with d t r && bijective r
   end.
 
-Definition model_ok (c : case) : bool :=
+Definition model_ok (c : ncase) : bool :=
   match c with
   | CHist df th steps =>
       let '(ok, ps) := run_steps df th (empty_index df th) steps [] in ok && bijective ps
   end.
 
+(* ---- case files carry primitive 63-bit integers only; decoding is unverified glue ---- *)
+Definition n_of (i : int) : N := Z.to_N (Uint63.to_Z i).
+Definition h64 (hi lo : int) : N := n_of hi * 4294967296 + n_of lo.
+Definition el (t : int * int * int * int) : elem :=
+  let '(hi, lo, id, hd) := t in mkElem (h64 hi lo) (n_of id) (n_of hd).
+Definition prs (l : list (int * int)) : list (N * N) := map (fun p => (n_of (fst p), n_of (snd p))) l.
+
+(* observation: (token, elements, count); query: (from hi, from lo, to hi, to lo, want elements) *)
+Definition iobs := (int * list (int * int) * int)%type.
+Definition iquery := (int * int * int * int * bool)%type.
+Inductive iop := ISet (es : list (int * int * int * int)) | IRemove (id : int).
+Definition istep := (iop * bool * list iquery * list iobs * list iobs)%type.
+Inductive case := ICHist (df th : int) (steps : list istep).
+
+Definition conv_obs (o : iobs) : obs := let '(t, es, c) := o in mkObs (n_of t) (prs es) (n_of c).
+Definition conv_q (q : iquery) : query := let '(fh, fl, th_, tl, we) := q in mkQ (h64 fh fl) (h64 th_ tl) we.
+Definition conv_step (s : istep) : stepobs :=
+  let '(o, ok, qs, inc, fr) := s in
+  mkStep (match o with ISet es => OSet (map el es) | IRemove id => ORemove (n_of id) end) ok
+         (map conv_q qs) (map conv_obs inc) (map conv_obs fr).
+Definition conv (c : case) : ncase :=
+  match c with ICHist df th steps => CHist (n_of df) (n_of th) (map conv_step steps) end.
+
 Fixpoint check_from (i : N) (l : list case) : list (N * N) :=
   match l with
   | [] => []
   | c :: r =>
-      (if spec_ok c then (if model_ok c then [] else [(i, 1)]) else [(i, 2)]) ++ check_from (N.succ i) r
+      let c' := conv c in
+      (if spec_ok c' then (if model_ok c' then [] else [(i, 1)]) else [(i, 2)]) ++ check_from (N.succ i) r
   end.
 
 Definition check_all (base : N) (l : list case) : list (N * N) := check_from base l.
